@@ -2,7 +2,7 @@
 (b) the Rust twin process that issues the same calls in canonical order (implementation vs implementation)."""
 import random, re
 from . import mc_suite
-from .common import run_pair, hash_text
+from .common import THOROUGH_SCALE, run_pair, hash_text
 
 PROF = dict(json_payloads=True, nodes=(1, 2), procs=(1, 3), depth=(2, 4), p_local=0.3, p_send=0.3, p_timer=0.3, p_cancel=0.1,
             two_runs=0.3, staged=0.0, acts=(1, 4), p_fault=0.15, p_crash=0.1)
@@ -18,7 +18,7 @@ def swap_kind(lines, frm, to):
 
 def run(v, tier, seed, name="python_bridge", n_quick=120, n_thorough=2500):
     rng = random.Random(seed * 6151 + 3)
-    n = n_quick if tier == "quick" else n_thorough
+    n = n_quick if tier == "quick" else n_thorough * THOROUGH_SCALE
     scen = []
     for i in range(n):
         kind = "py" if i % 3 != 2 else "pyd"
